@@ -8,7 +8,7 @@ ToSet(sq) == {sq[i] : i \in DOMAIN sq}
 TTokens == ToSet(TInst.Tokens)
 TAccts == ToSet(TInst.Accts)
 NLines == Len(Rec)
-VARIABLES l, bad
+VARIABLES l, bad, prev
 StateOf(p) == [bal |-> p.bal, collector |-> p.collector, owner |-> p.owner]
 ActOf(a) == IF "auth" \in DOMAIN a THEN [a EXCEPT !.auth = ToSet(a.auth)] ELSE a
 SameBag(s, t) ==
@@ -35,7 +35,7 @@ Report(line, r, v, inv) ==
                              spec |-> IF v = "events" THEN r.ev ELSE <<>>,
                              code |-> IF v \in {"events", "frame_events"} THEN line.obs.ev ELSE <<>>,
                              diffs |-> {[field |-> f] : f \in Diffs(r.post, line.post)}, inv |-> inv])>>)
-Init == l = 2 /\ bad = 0
+Init == l = 2 /\ bad = 0 /\ prev = [none |-> TRUE]
 Next ==
     /\ l <= NLines
     /\ LET line == Rec[l] IN
@@ -46,6 +46,10 @@ Next ==
                 accepted == v = "" \/ (r.free /\ v = "outcome")
             IN /\ IF accepted /\ inv = {} THEN TRUE ELSE Report(line, r, v, inv)
                /\ bad' = IF accepted /\ inv = {} THEN bad ELSE bad + 1
+    \* the log must be continuous: each call starts in the state the previous one ended in
+    /\ IF Rec[l].reset \/ "none" \in DOMAIN prev \/ Rec[l].pre = prev THEN TRUE
+       ELSE PrintT(<<"DISCONTINUITY", l>>)
+    /\ prev' = IF Rec[l].reset THEN Rec[l].pre ELSE Rec[l].post
     /\ l' = l + 1
 Accepted ==
     /\ TLCGet("stats").diameter = NLines
